@@ -99,6 +99,9 @@ def known_findings():
             m = re.match(r'property=(\S+)\s+obligation=(.*?)\s+::\s+(.*)$', ln)
             if m:
                 out.append(dict(property=m.group(1), obligation=m.group(2).strip(), what=m.group(3).strip()))
+            m = re.match(r'property=(\S+)\s+finding=(\S+)\s+::\s+(.*)$', ln)
+            if m:
+                out.append(dict(property=m.group(1), obligation='finding :: ' + m.group(2).strip(), finding=m.group(2).strip(), what=m.group(3).strip()))
     return out
 
 
@@ -454,6 +457,19 @@ def _check(pid, P, tier, seed, bdir, ev):
             cov['concrete_validation'] = dict(what=P.get('rt_what', 'scenarios of rt/README.md for this property: real crates, all six suites, oracles from the property statement'), cmd=res.get('cmd'), found=res.get('found'), cases=int(m.group(1)) if m else None,
                                               label='sampled (not a proof)', tail=res.get('stdout_tail', '')[-400:])
             cmds.append(res.get('cmd', ''))
+            seen_keys = set()
+            for fd in res.get('findings', []):
+                if fd['key'] in seen_keys:
+                    continue
+                seen_keys.add(fd['key'])
+                f = VR.Failure()
+                f.obligation = 'finding :: %s' % fd['key']
+                f.message = 'the real code deviates from the literal property text: %s (%s)' % (fd['key'], fd.get('detail', ''))
+                f.rendered = json.dumps(fd, indent=1)
+                f.fn_key = None
+                f.kani = dict(counterexample=fd)
+                failures_all.append(f)
+            cov['concrete_validation']['findings'] = sorted(seen_keys)
             if res.get('found'):
                 f = VR.Failure()
                 sc = res['case'].get('scenario', '?') if isinstance(res['case'], dict) else '?'
